@@ -80,7 +80,7 @@ class C19(object):
             spec = G.gen_affine(rng, rho=rng.choice([0.2, 0.5]), tol=1e-8)
             case = {'kind': 'solve', 'spec': spec, 'text': G.render(spec), 'fmt': rng.choice(['%.5g', '%.12e', '%r']),
                     'reduction': rng.random() < 0.5, 'solver_horizon': None}
-            if rng.random() < 0.5:
+            if (idx // 4) % 2 == 0:
                 # the horizon is set on the solver (as Model does); the block's own MaxTime line says something else
                 case['solver_horizon'] = rng.choice([0, 0, 1, 2, spec['maxtime']])
             return case
